@@ -2,7 +2,7 @@
 """Archive a confirmed seeded change: seeded_archive.py <seed-id> <name> <PROP> 'caught-by text' """
 import json, os, shutil, sys
 sid, name, prop, caught = sys.argv[1:5]
-src = ("/tmp/seed2_%s" % sid[2:]) if sid.startswith("r2") else ("/tmp/seed3_%s" % sid[2:]) if sid.startswith("r3") else ("/tmp/seed4_%s" % sid[2:]) if sid.startswith("r4") else ("/tmp/seed5_%s" % sid[2:]) if sid.startswith("r5") else ("/tmp/seed6_%s" % sid[2:]) if sid.startswith("r6") else ("/tmp/seed7_%s" % sid[2:]) if sid.startswith("r7") else "/tmp/seed_%s" % sid
+src = ("/tmp/seed2_%s" % sid[2:]) if sid.startswith("r2") else ("/tmp/seed3_%s" % sid[2:]) if sid.startswith("r3") else ("/tmp/seed4_%s" % sid[2:]) if sid.startswith("r4") else ("/tmp/seed5_%s" % sid[2:]) if sid.startswith("r5") else ("/tmp/seed6_%s" % sid[2:]) if sid.startswith("r6") else ("/tmp/seed7_%s" % sid[2:]) if sid.startswith("r7") else ("/tmp/seed8_%s" % sid[2:]) if sid.startswith("r8") else "/tmp/seed_%s" % sid
 dst = "/verif/seeded/%s" % name
 os.makedirs(dst, exist_ok=True)
 for f in ("patch.diff", "demo.py"):
